@@ -1,0 +1,7 @@
+//go:build !verif
+
+package engine
+
+// verifReorder is a verification hook: without the verif tag the shard order is
+// left as computed (HRW order for sorted lists, map order for unsorted ones).
+func verifReorder([]shardWrapper, bool) {}
